@@ -24,7 +24,7 @@ def sh(cmd, cwd=None, env=None):
 
 
 for f in ("patch.diff", "demo.py", "notes.md"):
-    if os.path.exists(os.path.join(sd, f)):
+    if os.path.exists(os.path.join(sd, f)) and os.path.abspath(sd) != os.path.abspath(dst):
         shutil.copy(os.path.join(sd, f), dst)
 cur = tempfile.mkdtemp(prefix="primaite-seed-", dir="/var/tmp")
 os.rmdir(cur)
@@ -33,7 +33,7 @@ def demo_on(cur):
     """The author's demo with its hard-coded worktree path redirected to ``cur``."""
     src = open(os.path.join(sd, "demo.py")).read()
     import re
-    m = re.search(r"/tmp/seed2?-C\d+", src)
+    m = re.search(r"/tmp/seed[23]?-C\d+", src)
     if m:
         src = src.replace(m.group(0), cur)
     fp = os.path.join(cur, "_demo_redirected.py")
@@ -76,6 +76,8 @@ meta.update({"property": a.prop, "name": a.name, "needs_to_manifest": notes[:180
                  ["git", "-C", "/repo", "log", "-1", "--format=%h"]).decode().strip()})
 runs = meta.get("checks_run", {})
 runs = {k: v for k, v in runs.items() if ":" in k}
+if os.environ.get("KEEP_SEED_FRESH"):
+    runs = {}  # a complete re-evaluation: only what was run now, against the HEAD named in checked_against
 runs.update(results)
 meta["checks_run"] = runs
 meta["caught_by"] = sorted(k for k, v in runs.items() if v["exit"] == 1 and v["violation_lines"] > 0)
